@@ -33,6 +33,8 @@ ASSUMPTIONS = [
 MIN_NONTRIVIAL = 300
 REQUIRED_COUNTERS = ["resolutions_checked", "undefined_checked", "strict_nameerrors_checked", "context_isolation_checked", "reserved_render_checked", "reserved_assign_checked", "not_asserted"]
 REQUIRED_COUNTERS += ["shadowing_checked"]
+RULE += "; directed scenarios for the names a call body takes as arguments (args=): the call expression reads the same name from the enclosing scope"
+REQUIRED_COUNTERS += ["call_body_args_checked"]
 
 _st = {}
 
@@ -331,6 +333,43 @@ def run_shadowing(res):
         res.nontrivial("shadow", name)
 
 
+# ------------------------------------------------------------------ the body arguments of a call
+_SHOW = '<%def name="show(a)">${"U" if a is UNDEFINED else a}:${caller.body(v="in")}</%def>'
+CALL_BODY_ARGS = [
+    # (name, template, expected (whitespace removed) without strict_undefined, expected under strict_undefined); rendered with v='CTX'
+    # args= of a call binds names INSIDE its body; the call expression is written outside it and reads the enclosing scope
+    ("call expression reads the name its body takes as an argument", _SHOW + '<%call expr="show(v)" args="v">[${v}]</%call>', "CTX:[in]", "CTX:[in]"),
+    ("the same through the <%self:def> spelling", _SHOW + '<%self:show a="${v}" args="v">[${v}]</%self:show>', "CTX:[in]", "CTX:[in]"),
+    ("after the call the name means what it meant before", _SHOW + '<%call expr="show(v)" args="v">[${v}]</%call>|${v}', "CTX:[in]|CTX", "CTX:[in]|CTX"),
+    ("inside a def whose own argument has that name", _SHOW + '<%def name="o(v)"><%call expr="show(v)" args="v">[${v}]</%call></%def>${o("ARG")}', "ARG:[in]", "ARG:[in]"),
+    ("inside a def, the name coming from the context", _SHOW + '<%def name="o()"><%call expr="show(v)" args="v">[${v}]</%call></%def>${o()}', "CTX:[in]", "CTX:[in]"),
+    ("the name assigned in the body before the call", "<% v = 'PG' %>" + _SHOW + '<%call expr="show(v)" args="v">[${v}]</%call>', "PG:[in]", "PG:[in]"),
+    ("a module-level name", "<%! v = 'MOD' %>" + _SHOW + '<%call expr="show(v)" args="v">[${v}]</%call>', "MOD:[in]", "MOD:[in]"),
+    ("a loop target", _SHOW + '\n% for v in ("L1", "L2"):\n<%call expr="show(v)" args="v">[${v}]</%call>\n% endfor\n', "L1:[in]L2:[in]", "L1:[in]L2:[in]"),
+    ("a name that is nowhere", '<%def name="show(a)">${"U" if a is UNDEFINED else a}:${caller.body(nowhere="in")}</%def><%call expr="show(nowhere)" args="nowhere">[${nowhere}]</%call>',
+     "U:[in]", "NameError: 'nowhere' is not defined"),
+    ("a nested call whose expression reads the outer call's body argument",
+     _SHOW + '<%def name="w()">${caller.body(v="outer")}</%def><%call expr="w()" args="v"><%call expr="show(v)" args="v">[${v}]</%call></%call>', "outer:[in]", "outer:[in]"),
+    ("an expression inside a keyword of the call", _SHOW + '<%call expr="show(a=v.lower())" args="v">[${v}]</%call>', "ctx:[in]", "ctx:[in]"),
+]
+
+
+def run_call_body_args(res):
+    T = _st["Template"]
+    for name, text, exp, exp_strict in CALL_BODY_ARGS:
+        for strict in (False, True):
+            res.evaluations += 1
+            res.count("call_body_args_checked")
+            try:
+                got = "".join(T(text, strict_undefined=strict).render_unicode(v="CTX").split())
+            except Exception as e:
+                got = "%s: %s" % (type(e).__name__, e)
+            want = exp_strict if strict else exp
+            if got != want:
+                res.violate("call-body-argument-scope", "%s (strict_undefined=%s): template %r rendered %r, expected %r" % (name, strict, text, got, want))
+        res.nontrivial("call-body-args", name)
+
+
 # ------------------------------------------------------------------ isolation
 def run_isolation(res):
     L = _st["TemplateLookup"]
@@ -496,6 +535,7 @@ def run_case(case):
         run_isolation(res)
     elif k == "shadowing":
         run_shadowing(res)
+        run_call_body_args(res)
     elif k == "reserved":
         run_reserved(res)
     return res
